@@ -31,9 +31,31 @@ Definition modify_default_ok (a : action) (col : column_def) : bool :=
   | _ => true
   end.
 
-(* the comment a MODIFY carries: only ModifyColumnComment ever writes one *)
-Definition modify_comment (a : action) : option string :=
-  match a with ModifyColumnComment _ _ m => m | _ => None end.
+(* the body of the COMMENT literal a MODIFY carries for the column as it is after the action: sea-query's escape_string
+   (ColumnSpec::Comment) for type / nullability / default changes, the hand-made doubling of quotes of
+   modify_column_comment.rs for a comment change *)
+Definition comment_body (a : action) (col' : column_def) : option string :=
+  match a with
+  | ModifyColumnComment _ _ _ => option_map hand_escape (c_comment col')
+  | _ => option_map mysql_escape (c_comment col')
+  end.
+
+(* everything a MySQL column definition carries: type text, NOT NULL, DEFAULT text, the COMMENT as MySQL reads the
+   literal, AUTO_INCREMENT, inline PRIMARY KEY *)
+Definition restated_all (d : coldef) : string * bool * option string * option string * bool * bool :=
+  (cd_type d, cd_notnull d, cd_default d, option_map mysql_unescape (cd_comment d), cd_auto d, cd_pk d).
+(* what the evolving schema holds for column [c_name col] of table [t] (the column is [col] there) *)
+Definition declared_all (s : schema) (t : string) (col : column_def) : string * bool * option string * option string * bool * bool :=
+  (mysql_type_text (c_type col), negb (c_nullable col), option_map (mysql_default_text (c_type col)) (c_default col),
+   c_comment col, (is_auto_col s t (c_name col) && supports_auto_increment (c_type col))%bool, false).
+(* the hand-made escaping of modify_column_comment.rs doubles quotes only: MySQL reads the comment back unchanged when
+   it contains no backslash *)
+Fixpoint no_backslash (s : string) : bool :=
+  match s with EmptyString => true | String a r => (negb (N.eqb (N_of_ascii a) 92) && no_backslash r)%bool end.
+Definition hand_comment_ok (a : action) : bool :=
+  match a with ModifyColumnComment _ _ (Some m) => no_backslash m | _ => true end.
+(* the hypothesis of C04_modify_restates_all *)
+Definition modify_all_hyp (a : action) (col : column_def) : bool := (modify_default_ok a col && hand_comment_ok a)%bool.
 
 (* evolving schema of build_plan_queries before action number i *)
 Definition schema_at (s : schema) (acts : list action) (i : nat) : schema := fold_left step (firstn i acts) s.
@@ -117,16 +139,16 @@ Definition after_col (a : action) (col : column_def) : column_def :=
   | _ => col
   end.
 
-(* hypothesis of sim_modify_column: distinct table / column names, the column is not the auto-increment key
-   (class D19), the kept default is not re-quoted, a primary-key column stays NOT NULL (A2), and the table the
-   engine ends with may exist (its auto column, if any, is still a key) *)
+(* hypothesis of sim_modify_column: distinct table / column names, the kept default is not re-quoted, a primary-key
+   column stays NOT NULL (A2), and the table the engine ends with may exist (its auto column, if any, is still a key).
+   Since fix N1 the auto-increment key column is no longer excluded: its MODIFY restates AUTO_INCREMENT *)
 Definition wf_auto (s : schema) : bool := forallb (fun td => auto_ok (catalog_of_table td)) s.
 Definition modify_sim_hyp (s : schema) (a : action) : bool :=
   match modify_target a with
   | Some (t, c) =>
       match lookup_column s t c with
       | Some col =>
-          (wf_names s && negb (is_auto_col s t c) && modify_default_ok a col
+          (wf_names s && modify_default_ok a col
            && (negb (mem_str c (pk_cols_of_table s t)) || negb (c_nullable (after_col a col)))
            && match apply_action s a with Ok s' => wf_auto s' | Err _ => true end)%bool
       | None => false
